@@ -5523,3 +5523,74 @@ func ruleUnitResetsWhenAccessDone(r *Run, rule string) {
 		}
 	}
 }
+
+// ruleDispatchTruthful (R04.24 / R01.19): the function that puts an instruction on the execute
+// bus and raises the scoreboard for it tells its caller the truth: it answers true after it has
+// done so and false when it left before. A "not dispatched" answer for an instruction that was
+// dispatched keeps it in the pending queue, from which it is dispatched, and executed, again.
+func ruleDispatchTruthful(r *Run, rule string) {
+	w := r.W
+	for _, v := range variants(w) {
+		if v.pkg == nil || !multiExec(v) {
+			continue
+		}
+		info := v.info
+		for _, f := range v.pkg.Syntax {
+			for _, d := range f.Decls {
+				fd, ok := d.(*ast.FuncDecl)
+				if !ok || fd.Body == nil || fd.Type.Results == nil || len(fd.Type.Results.List) != 1 || typeName(info.TypeOf(fd.Type.Results.List[0].Type)) != "bool" {
+					continue
+				}
+				var addPos token.Pos
+				marks := false
+				for _, st := range fd.Body.List {
+					es, ok := st.(*ast.ExprStmt)
+					if !ok {
+						continue
+					}
+					c, ok := es.X.(*ast.CallExpr)
+					if !ok {
+						continue
+					}
+					if sel, ok := c.Fun.(*ast.SelectorExpr); ok {
+						if sel.Sel.Name == "Add" && isCompType(info.TypeOf(sel.X), "BufferedBus") {
+							addPos = c.Pos()
+						}
+						if sel.Sel.Name == "AddPendingRegisters" {
+							marks = true
+						}
+					}
+				}
+				if addPos == token.NoPos || !marks {
+					continue
+				}
+				good := true
+				seenAfter := false
+				ast.Inspect(fd.Body, func(k ast.Node) bool {
+					if _, ok := k.(*ast.FuncLit); ok {
+						return false
+					}
+					rs, ok := k.(*ast.ReturnStmt)
+					if !ok || len(rs.Results) != 1 {
+						return true
+					}
+					tv := info.Types[rs.Results[0]]
+					if tv.Value == nil {
+						good = false
+						return true
+					}
+					if rs.Pos() > addPos {
+						seenAfter = true
+						if tv.Value.String() != "true" {
+							good = false
+						}
+					} else if tv.Value.String() != "false" {
+						good = false
+					}
+					return true
+				})
+				r.check(good && seenAfter, rule, fmt.Sprintf("%s.%s:dispatch-answer", v.rel, declName(fd)), fd.Pos(), "the dispatch function answers true after it put the instruction on the bus and false when it left before")
+			}
+		}
+	}
+}
